@@ -199,6 +199,13 @@ inductive EvalRes (α : Type) where
   /-- run-time panic (index out of range / nil polynomial) -/
   | panic
 
+/-- one summand of `MultiplyByDiagMatrix`: `k &= slots-1; pt := matrix.Vec[k]` times the input
+    rotated by `k`; `none` = `Vec[k]` is the zero-value `ringqp.Poly` (nil dereference) -/
+def naiveTerm {α : Type} (O : SlotOps α) (slots : Nat) (vec : List (Int × α)) (v : α) (k : Int) : Option α :=
+  match lookupI (normIdx slots k) vec with
+  | some pt => some (O.mul pt (O.rot (normIdx slots k) v))
+  | none => none
+
 /-- `MultiplyByDiagMatrix` (naive, single hoisting). -/
 def evalNaive {α : Type} (O : SlotOps α) (slots : Nat) (vec : List (Int × α)) (v : α) : EvalRes α :=
   match sortU (vec.map (·.1)) with
@@ -206,13 +213,8 @@ def evalNaive {α : Type} (O : SlotOps α) (slots : Nat) (vec : List (Int × α)
   | k0 :: rest =>
     let state := k0 == 0
     let ks := if state then rest else k0 :: rest
-    let terms := ks.mapM fun k =>
-      let k' := normIdx slots k
-      match lookupI k' vec with                         -- pt := matrix.Vec[k] after k &= slots-1
-      | some pt => some (O.mul pt (O.rot k' v))
-      | none => none
-    match terms with
-    | none => .panic                                    -- zero-value ringqp.Poly
+    match ks.mapM (naiveTerm O slots vec v) with
+    | none => .panic
     | some ts =>
       let pt0 := (lookupI 0 vec).map fun pt => O.mul pt v
       match accum O ts, state with
@@ -222,21 +224,24 @@ def evalNaive {α : Type} (O : SlotOps α) (slots : Nat) (vec : List (Int × α)
         | none => .panic
       | none, _ => .stale pt0
 
+/-- inner loop body of `MultiplyByDiagMatrixBSGS`: `pt := matrix.Vec[j+i]` times `ctInPreRot[i]`
+    (`ctIn` itself for `i = 0`) -/
+def bsgsInner {α : Type} (O : SlotOps α) (vec : List (Int × α)) (v : α) (j i : Int) : Option α :=
+  match lookupI (j + i) vec with
+  | some pt => some (O.mul pt (if i == 0 then v else O.rot i v))
+  | none => none
+
+/-- outer loop body: the inner sum, rotated by the giant step `j` when `j ≠ 0` -/
+def bsgsOuter {α : Type} (O : SlotOps α) (vec : List (Int × α)) (v : α) (ji : Int × List Int) : Option α :=
+  match ji.2.mapM (bsgsInner O vec v ji.1) with
+  | none => none
+  | some ts => match accum O ts with
+    | none => none
+    | some s => some (if ji.1 != 0 then O.rot ji.1 s else s)
+
 /-- `MultiplyByDiagMatrixBSGS` (double hoisting); `ctInPreRot[i] = rot i v`. -/
 def evalBSGS {α : Type} (O : SlotOps α) (slots N1 : Nat) (vec : List (Int × α)) (v : α) : EvalRes α :=
-  let b := bsgsIndex (vec.map (·.1)) slots N1
-  let outer := b.index.mapM fun ji =>
-    let j := ji.1
-    let inner := ji.2.mapM fun i =>
-      match lookupI (j + i) vec with
-      | some pt => some (O.mul pt (if i == 0 then v else O.rot i v))
-      | none => none
-    match inner with
-    | none => none
-    | some ts => match accum O ts with
-      | none => none
-      | some s => some (if j != 0 then O.rot j s else s)
-  match outer with
+  match (bsgsIndex (vec.map (·.1)) slots N1).index.mapM (bsgsOuter O vec v) with
   | none => .panic
   | some ts => match accum O ts with
     | some a => .val a
